@@ -415,7 +415,7 @@ class Check(core.PropertyCheck):
                           "client_data_while_exchange_open", "next_request_from_buffer", "three_client_segments",
                           "three_server_segments", "interim", "server_close", "error_hook",
                           "cut_client_h", "cut_client_H", "cut_client_b", "cut_client_B", "cut_server_h", "cut_server_b",
-                          "cut_client_-+", "cut_server_-+", "feat_plain")
+                          "cut_client_-+", "cut_server_-+", "cut_client_n", "cut_client_n+", "feat_plain", "feat_blank_line")
     REQUIRED_ACTIONS = ("Start", "DeliverC", "DeliverS", "ServerClose", "Finish")
     ASSUMPTIONS = (
         "the outcome of a run is summarised as: per flow the hook sequence, recorded request and response and error flag; "
@@ -480,10 +480,8 @@ class Check(core.PropertyCheck):
                     yield core.Scenario(self.concretise(b), predicted=core.predicted_events(b), source="simulate")
         # plain exhaustion on concrete bytes: every single cut, one-byte segments, pairs of cuts, random interleavings
         rng = random.Random(ctx.seed + 2)
-        fixed = [SCN_QUICK[0], SCN_QUICK[1], SCN_QUICK[2], SCN_QUICK[3]] if ctx.quick else list(SCN_THOROUGH)
+        fixed = [SCN_QUICK[0], SCN_QUICK[1], SCN_QUICK[2], SCN_QUICK[4]] if ctx.quick else list(SCN_THOROUGH)
         for scn in fixed:
-            if feat_of(scn) != "plain" and ctx.quick:
-                continue
             base = streams_of([dict(e) for e in scn])
             base["unit"] = "byte"
             clen = sum(len(b) for _, b in base["client"])
